@@ -482,10 +482,7 @@ func Eq(a, b *Term) *Term {
 	}
 	// injective uninterpreted functions: f(x1..xn) = f(y1..yn) <=> xi = yi; different symbols of
 	// the same width have disjoint ranges (both are axiomatised per application as well)
-	if a.Op == "uf" && b.Op == "uf" && injectiveUF[a.Name] && injectiveUF[b.Name] {
-		if a.Name != b.Name {
-			return tFalse
-		}
+	if a.Op == "uf" && b.Op == "uf" && a.Name == b.Name && injectiveUF[a.Name] {
 		cs := make([]*Term, len(a.Args))
 		for i := range a.Args {
 			cs[i] = Eq(a.Args[i], b.Args[i])
